@@ -88,19 +88,22 @@ function leaf(...) return ... end
 		}
 		return false, ""
 	}
+	sink := &caseSink{}
+	defer func() { addGrouped(w, sink.list) }()
 	for _, opt := range []lua.Options{{}, {CallStackSize: 16, RegistrySize: 1024}, {CallStackSize: 16, RegistrySize: 1024, MinimizeStackMemory: true}} {
 		for _, c := range callees {
 			for _, style := range styles {
 				for nargs := 0; nargs <= 2; nargs++ {
 					o := opt
 					bad, what, hits := apiRun(o, prelude, func(L *lua.LState, depth int) (bool, string) { return probe(L, c, style, nargs) })
-					id := w.Add(lib.Case{Input: map[string]any{"api": c.name, "style": style, "nargs": nargs, "options": fmt.Sprintf("%+v", o)},
-						Observed: map[string]any{"probes": hits, "failed": bad, "what": what}, Class: "api-" + c.name + "-" + style,
-						Nontrivial: true, Coq: "CProg [] (Outcome [] (OOk []))"})
-					w.Meta.GoOnlyChecked++
-					if bad {
-						w.GoFail(id, fmt.Sprintf("Go-side protected call (%s) of callee %q with %d argument(s) under %+v: %s", style, c.name, nargs, o, what))
+					// one case per callee (wave 5: the verdicts of a callee are written together, see addGrouped)
+					if !bad {
+						what = ""
+					} else if what == "" {
+						what = "failed"
 					}
+					sink.add("api-"+c.name, map[string]any{"api": c.name, "style": style, "nargs": nargs, "options": fmt.Sprintf("%+v", o)},
+						map[string]any{"probes": hits}, what, nil, fmt.Sprintf("Go-side protected call (%s) of callee %q with %d argument(s) under %+v", style, c.name, nargs, o))
 				}
 			}
 		}
